@@ -66,6 +66,68 @@ def heading_class(node):
     walk(node, False)
     return found
 
+GLS_PAIRS = [('\\gls', '\\GLS'), ('\\glspl', '\\GLSpl'), ('\\glsdesc', '\\GLSdesc'), ('\\glstext', '\\GLStext'),
+             ('\\gls', '\\Gls'), ('\\glspl', '\\Glspl'), ('\\glsdesc', '\\Glsdesc'), ('\\glstext', '\\Glstext')]
+
+def gls_markup_cases(rng):
+    """glossary entries whose fields contain declared macros (symbols, pass-through macros with a hidden first
+    argument, vanishing macros with a key), used through the plain, the capitalised and the all-capitals forms:
+    the capitalised forms typeset the same words (compared without case), and keys / colour names never appear"""
+    out = []
+    def w():
+        return 'Q' + ''.join(rng.choice('abcdefghijklmnopqrstuvwxyz') for _ in range(4))
+    for _ in range(6):
+        vis, hid = [], []
+        def field():
+            parts = []
+            for _ in range(rng.randint(1, 3)):
+                k = rng.randrange(8)
+                if k == 0:
+                    parts.append('\\LaTeX{}'); vis.append('LaTeX')
+                elif k == 1:
+                    parts.append('\\TeX{}'); vis.append('TeX')
+                elif k == 2:
+                    a = w(); parts.append(a + '\\ss{}'); vis.append(a)
+                elif k == 3:
+                    h, a = w(), w(); parts.append('\\textcolor{' + h + '}{' + a + '}'); hid.append(h); vis.append(a)
+                elif k == 4:
+                    h, a = w(), w(); parts.append(a + '\\index{' + h + '}'); hid.append(h); vis.append(a)
+                elif k == 5:
+                    h, a = w(), w(); parts.append(a + '\\label{' + h + '}'); hid.append(h); vis.append(a)
+                elif k == 6:
+                    a = w(); parts.append('\\emph{' + a + '}'); vis.append(a)
+                else:
+                    a = w(); parts.append(a); vis.append(a)
+            return ' '.join(parts)
+        lab = 'l' + str(rng.randrange(10))
+        defs = '\\gls@defglossaryentry{%s}{name={%s},text={%s},plural={%s},description={%s}}\n' % (lab, field(), field(), field(), field())
+        a, b = w(), w()
+        for lo, up in GLS_PAIRS:
+            srcs = ['\\LTinput{g.glsdefs}\n%s %s{%s} %s' % (a, m, lab, b) for m in (lo, up)]
+            out.append({'kind': 'glsmarkup', 'pair': (lo, up), 'srcs': srcs, 'files': {'g.glsdefs': defs}, 'hidden': list(hid),
+                        'opts': {'pack': rng.choice(['*', 'glossaries,xcolor']), 'lang': rng.choice(['en', 'de'])}})
+    return out
+
+def run_gls_markup(c):
+    return [t2t.run_case({'src': s, 'opts': c['opts'], 'files': c['files'], 'multi': False, 'want_toks': False}) for s in c['srcs']]
+
+def judge_gls_markup(c, rs):
+    fails = []
+    if any(r['outcome'] != 'ok' for r in rs):
+        return fails
+    lo, up = rs[0]['txt'], rs[1]['txt']
+    for h in c['hidden']:
+        for t, m in ((lo, c['pair'][0]), (up, c['pair'][1])):
+            if h.upper() in t.upper():
+                fails.append('key / colour name %r of a glossary field appears in the output of %s: %r' % (h, m, t))
+    for t, m in ((lo, c['pair'][0]), (up, c['pair'][1])):
+        mm = MARKUP.search(t)
+        if mm:
+            fails.append('control sequence %r left in the output of %s' % (mm.group(0), m))
+    if re.sub(r'\s+', ' ', lo.upper()) != re.sub(r'\s+', ' ', up.upper()):
+        fails.append('%s and %s of one entry typeset different words: %r / %r' % (c['pair'][0], c['pair'][1], lo, up))
+    return fails
+
 def run(ctx):
     n = ctx.scale(900, 25000)
     rng = ctx.rng
@@ -95,9 +157,18 @@ def run(ctx):
             ctx.violation(fails[0], src=c['src'], opts=c['opts'], all=fails[:4], case=semrun.pack(c))
         if len(ctx.samples) < 3:
             ctx.sample({'src': c['src'][:300], 'expected_words': [w for w, _ in exp.seq][:20], 'hidden': sorted(exp.hidden)[:10]})
+    gm = [c for _ in range(ctx.scale(2, 20)) for c in gls_markup_cases(rng)]
+    for c, rs in zip(gm, ctx.pmap(run_gls_markup, gm)):
+        ctx.case(c['srcs'][1]); ctx.count('gls_markup_pairs')
+        f = judge_gls_markup(c, rs)
+        if f:
+            ctx.violation(f[0], src=c['srcs'][1], opts=c['opts'], files=c['files'], glsmarkup={k: c[k] for k in ('pair', 'srcs', 'files', 'hidden', 'opts')})
     corr.t2t(ctx, cases, results, proj=('outcome', 'toks', 'text'), limit=ctx.scale(900, 20000))
 
 def judge_witness(w):
+    if w.get('glsmarkup'):
+        c = w['glsmarkup']
+        return judge_gls_markup(c, run_gls_markup(c))
     c = {'src': w['src'], 'opts': w.get('opts') or {}, 'multi': False}
     r = t2t.run_case(c)
     if r['outcome'] != 'ok':
@@ -121,6 +192,10 @@ def rejudge(c):
 
 def replay(data):
     v = data['violation']
+    if v.get('glsmarkup'):
+        f = judge_witness(v)
+        print('\n'.join(f) if f else 'ok')
+        return not f
     if v.get('case'):
         f = rejudge(semrun.unpack(v['case']))
         print('\n'.join(f) if f else 'ok')
